@@ -94,6 +94,9 @@ type fixtures struct {
 	// pipe gates the stub upstreams for the queries of the pipeline script
 	// (pipebin_test.go); nil in the configuration check.
 	pipe *pipeGate
+	// hc scripts the main stub upstreams of the health-check script
+	// (hcbin_test.go); nil otherwise.
+	hc *hcGate
 }
 
 const (
@@ -320,6 +323,11 @@ func (fx *fixtures) startUpstream() (addr string, stop func(), err error) {
 // TXT answer for bigHost.
 func (fx *fixtures) answer(w dns.ResponseWriter, req *dns.Msg) {
 	fx.upstreamQueries.Add(1)
+	if g := fx.hc; g != nil && len(req.Question) == 1 {
+		if g.observe(w.LocalAddr().String(), req.Question[0].Name) {
+			return
+		}
+	}
 	if g := fx.pipe; g != nil && len(req.Question) == 1 {
 		g.hold(req.Question[0].Name)
 	}
